@@ -1037,4 +1037,59 @@ theorem build_builtOk : ∀ (ops : List Op) (w : World), BuiltOk w → Valid w o
     rw [List.foldl_cons]
     exact build_builtOk os (apply w o) (apply_builtOk h o hv.1) hv.2
 
+/-! ### what `async_requests=True` registers -/
+
+theorem connectAsync_registers (w : World) {src dst : Sid} (hs : src < w.sims.length) (hd : dst < w.sims.length) :
+    (∃ d, (dst, d) ∈ ((w.connectAsync src dst).sim src).succs) ∧ (∃ d, (dst, d) ∈ ((w.connectAsync src dst).sim src).succsWait) := by
+  obtain ⟨delay, hdelay⟩ := plain_accepted (w.decl src).group (w.decl dst).group
+  unfold World.connectAsync
+  rw [hdelay]
+  simp only
+  generalize hS : ({ w.sim src with succs := insertTI (w.sim src).succs dst delay, succsWait := insertTI (w.sim src).succsWait dst delay } : SimCfg) = S
+  have sF : S.succs = insertTI (w.sim src).succs dst delay ∧ S.succsWait = insertTI (w.sim src).succsWait dst delay := by
+    subst hS; exact ⟨rfl, rfl⟩
+  have e1 : (w.setSim src S).sim src = S := by rw [sim_setSim]; simp [hs]
+  generalize hw1 : w.setSim src S = w1 at e1
+  have hlen1 : w1.sims.length = w.sims.length := by rw [← hw1]; simp
+  have key : ((w1.setSim dst { w1.sim dst with inputDelays := insertTI (w1.sim dst).inputDelays src delay }).sim src).succs = S.succs ∧
+      ((w1.setSim dst { w1.sim dst with inputDelays := insertTI (w1.sim dst).inputDelays src delay }).sim src).succsWait = S.succsWait := by
+    rw [sim_setSim]
+    split
+    · rename_i hsd
+      rw [← hsd.1, e1]
+      exact ⟨rfl, rfl⟩
+    · rw [e1]; exact ⟨rfl, rfl⟩
+  rw [key.1, key.2, sF.1, sF.2]
+  exact ⟨⟨delay, insertTI_has _ _ _⟩, ⟨delay, insertTI_has _ _ _⟩⟩
+
+/-- after `connect(A, B, …, async_requests=True)` (whether or not some attribute pair was rejected) B is in A's `successors` and
+`successors_to_wait_for` -/
+theorem connect_async_registers (w : World) (c : ConnectCall) (hs : c.src < w.sims.length) (hd : c.dst < w.sims.length)
+    (hasync : c.asyncReq = true) :
+    (∃ d, (c.dst, d) ∈ ((w.connect c).1.sim c.src).succs) ∧ (∃ d, (c.dst, d) ∈ ((w.connect c).1.sim c.src).succsWait) := by
+  rw [connect_eq]
+  simp only [hasync, if_true]
+  have hlen : ∀ (pairs : List (Nat × Nat)) (acc : World × Option BuildErr), (pairs.foldl (foldPairs c) acc).1.sims.length = acc.1.sims.length := by
+    intro pairs
+    induction pairs with
+    | nil => intro acc; rfl
+    | cons pr rest ih =>
+      intro acc
+      rw [List.foldl_cons, ih]
+      unfold foldPairs
+      cases hc : World.connectOne acc.1 c pr.1 pr.2 with
+      | error e => rfl
+      | ok w' =>
+        simp only
+        rw [connectOne_eq] at hc
+        split at hc
+        · cases hc
+        split at hc
+        · cases hc
+        split at hc
+        · cases hc
+        injection hc with hc
+        rw [← hc]; simp
+  exact connectAsync_registers _ (by rw [hlen]; exact hs) (by rw [hlen]; exact hd)
+
 end Mosaik.Build
